@@ -21,7 +21,7 @@ TECHNIQUE = "fault injection on a deterministic actor/asyncio simulator: generat
 RULE = (
     "Generated: C01-style races x one fault: request failure (HTTP 5xx / success:false) under on-error=abort at a drawn request (other tasks, "
     "or in a class the failing task itself - then no fault -, may carry ignore-response-error-level=non-fatal); fatal "
-    "ConnectionError under on-error=continue; parameter source raising at its n-th params(); runner raising KeyError / RuntimeError / "
+    "ConnectionError under on-error=continue; parameter source raising at its n-th params() or in partition() (outside any executor), with or without a message (bare assert, ValueError()); runner raising KeyError / RuntimeError / "
     "RallyAssertionError; the driver's metrics store - or race control's, while it adds the metrics handed over after a step - failing on "
     "its n-th record, once or persistently (flush/close/externalise too); a "
     "track preparation task raising; a worker process killed at a drawn virtual time; user cancellation (KeyboardInterrupt in race "
@@ -39,9 +39,13 @@ BUDGET = {"quick": 1200, "thorough": 8000}
 REQUIRED_CLASSES = {
     "fired:runner-abort": 10, "fired:conn-error": 10, "fired:param-source": 10, "fired:runner-raises": 10, "fired:store-once": 10,
     "fired:store-persistent": 10, "fired:prep-task": 10, "fired:kill-worker": 10, "fired:cancel": 10, "no-fault": 8,
-    "strict-task-beside-tolerant-task": 8, "tolerated-by-task": 5,
+    "strict-task-beside-tolerant-task": 8, "tolerated-by-task": 5, "exception-without-message": 10, "raised-outside-executor": 5,
 }
 TIMES = [0.5, 2.0, 6.5, 9.0, 14.0, 25.0, 45.0]
+
+
+# what user code (parameter source, track preparation task) raises: usually something with a message; a bare assert has none
+_EXC = st.sampled_from(["runtime", "runtime", "assert-empty", "value-empty", "timeout-empty"])
 
 
 @st.composite
@@ -76,7 +80,8 @@ def _case(draw):
         case["on_error"] = draw(st.sampled_from(["continue", "abort"]))
         fault = {"kind": "runner", "task": leaf["name"], "client": client, "ordinal": ordinal, "outcome": draw(st.sampled_from(["raise-key", "raise-runtime", "raise-assert"]))}
     elif kind == "param-source":
-        fault = {"kind": "param-source", "task": leaf["name"], "client": client, "ordinal": ordinal}
+        fault = {"kind": "param-source", "task": leaf["name"], "client": client, "ordinal": ordinal,
+                 "where": draw(st.sampled_from(["params", "params", "partition"])), "exc": draw(_EXC)}
     elif kind in ("store-once", "store-persistent"):
         fault = {"kind": "store", "n": draw(st.sampled_from([1, 2, 3, 7, 20, 60])), "persistent": kind == "store-persistent"}
         if draw(st.integers(0, 2)) == 0:
@@ -99,7 +104,7 @@ def _case(draw):
     elif kind == "prep-task":
         if not case["prep_tasks"]:
             case["prep_tasks"] = [0.5]
-        fault = {"kind": "prep-task", "task_id": draw(st.integers(0, len(case["prep_tasks"]) - 1))}
+        fault = {"kind": "prep-task", "task_id": draw(st.integers(0, len(case["prep_tasks"]) - 1)), "exc": draw(_EXC)}
     elif kind == "kill-worker":
         if draw(st.booleans()):
             fault = {"kind": "kill-worker", "index": draw(st.integers(0, 3)), "after_wakeups": draw(st.sampled_from([1, 1, 2, 3, 5]))}
@@ -177,6 +182,10 @@ def run_case(case, obs):
         obs.cls("no-fault" if fault is None else f"not-fired:{kind}")
         return
     obs.cls(f"fired:{kind}")
+    if fault and fault.get("exc", "runtime") != "runtime":
+        obs.cls("exception-without-message")
+    if fault and fault.get("where") == "partition":
+        obs.cls("raised-outside-executor")
     # 1. race control is told, as a failure (or cancellation), never success
     if r.outcome == "hang":
         obs.violation("no-notification", f"fault {fault} fired at {r.fired_at:.3f} but race control never got a reply: {r.error}")
